@@ -49,6 +49,9 @@ Start(e) == /\ phase = "live" /\ e.b \notin started \cup failedstart
 Fault(e) == /\ err' = (IF e.fatal /\ simset /\ phase = "live" THEN First(e.e) ELSE err)
             /\ doomed' = (doomed \/ e.doom)
             /\ UNCHANGED <<simset, supf, started, failedstart, stopcnt, sast, sabeg, stopt0, phase, sdrun, sdwant>>
+(* a control event ('shutdown' / 'abort' sent to the control block) was delivered: the      *)
+(* simulator has received the stop request when the sender's event() returns              *)
+CtrlReq(e) == (err # NONE \/ doomed) /\ Same
 (* wait_init() returned normally: never in a doomed run (a failed synchronous              *)
 (* initialisation routine is not tried again)                                             *)
 Inited(e) == ~doomed /\ Same
@@ -138,6 +141,7 @@ Step == /\ l <= Len(Ev(tid))
                 \/ e.ev = "start" /\ Start(e)
                 \/ e.ev = "fault" /\ Fault(e)
                 \/ e.ev = "inited" /\ Inited(e)
+                \/ e.ev = "ctrlreq" /\ CtrlReq(e)
                 \/ e.ev = "abort" /\ Abort(e)
                 \/ e.ev = "supfail" /\ SupFail(e)
                 \/ e.ev = "stopreq" /\ StopReq(e)
